@@ -160,7 +160,10 @@ pub fn compile_to_mono(src: &str) -> String {
             .collect::<Vec<_>>()
             .join("\n");
     }
-    let (mono, monoenv) = compiler::mono::mono(genv, core);
+    let (mono, monoenv) = match compiler::mono::mono_checked(genv, core) {
+        Ok(result) => result,
+        Err(message) => return format!("error (compile): {}", message),
+    };
 
     let (lifted, liftenv) = compiler::lift::lambda_lift(monoenv, &gensym, mono);
     lifted.to_pretty(&liftenv, 120)
@@ -207,7 +210,10 @@ pub fn compile_to_anf(src: &str) -> String {
             .collect::<Vec<_>>()
             .join("\n");
     }
-    let (mono, monoenv) = compiler::mono::mono(genv, core);
+    let (mono, monoenv) = match compiler::mono::mono_checked(genv, core) {
+        Ok(result) => result,
+        Err(message) => return format!("error (compile): {}", message),
+    };
 
     let (lifted, liftenv) = compiler::lift::lambda_lift(monoenv, &gensym, mono);
 
@@ -256,7 +262,10 @@ pub fn compile_to_go(src: &str) -> String {
             .collect::<Vec<_>>()
             .join("\n");
     }
-    let (mono, monoenv) = compiler::mono::mono(genv, core);
+    let (mono, monoenv) = match compiler::mono::mono_checked(genv, core) {
+        Ok(result) => result,
+        Err(message) => return format!("error (compile): {}", message),
+    };
 
     let (lifted, liftenv) = compiler::lift::lambda_lift(monoenv, &gensym, mono);
 
